@@ -188,7 +188,7 @@ var checks = []Check{
 	{
 		ID: "C16", Pkg: "checks/c16", Instr: coreInstr, Extra: map[string][]string{"distsys/resources": {"resources_access.go"}},
 		QuickRuns: 40000, ThoroughRuns: 2000000, QuickBudgetS: 60, ThoroughBudgetS: 1200, ShrinkS: 45,
-		Rule: "one run = one drawn system with drawn sizes. Level A (real generated archetypes in the spec world, mapping macros to the letter, the stream picks which archetype takes its next label and resolves every either): dqueue (1-4 consumers, BUFFER_SIZE 1-4): every produced item goes to the requester whose request was committed first, consumers obtain exactly the items sent to them in production order, no buffer above its bound, no deadlock; loadbalancer (1-3 servers, 1-3 clients, BUFFER_SIZE 1-3): BuffersOk, every request forwarded once to a server and answered by exactly one server with the page of its path; proxy (1-3 backends, 1-2 clients, perfect failure detector, EXPLORE_FAIL in 3/4 of the runs with every mayFail branch a stream decision and any number of crashes): ProxyOK as written after every committed step, and a client is told FAIL only when every backend has failed. Level U (real generated archetypes on the real runtime with the real resources over the simulated network): shcounter (2-4 nodes, real 2PC): every node finishes and every replica ends at NUM_NODES; gcounter (2-4 nodes, real CRDT resource): reads never decrease, never exceed NUM_NODES, every node ends at NUM_NODES; shopcart (generated ANode, 2-3 nodes, real CRDT resource with LWWSet as the shipped bootstrap uses, 1-4 add/remove commands each over 3 elements): no phantom element, a command that ran alone is reflected in its answer, once every update has been delivered all nodes answer the same cart, and an element whose last command started after all others were answered is present iff that command was an add; nestedcrdtimpl (generated ACRDTResource x 1-3 with the G-counter operators of the module's test, driven by the spec's Node processes transcribed label by label: read/write/pre-commit/commit/abort protocol, NUM_OPS 1-6, BUFFER_SIZE 1-3): MonotonicState, own entry = committed increments, no phantom increments, a read never returns less than the replica counted when the critical section started, convergence to the number of committed increments at quiescence. No assertion of a spec fails anywhere; non-trivial = at least 10 spec steps (A) or 2 committed sections (U); distinct = distinct interleaving digests",
+		Rule: "one run = one drawn system with drawn sizes. Level A (real generated archetypes in the spec world, mapping macros to the letter, the stream picks which archetype takes its next label and resolves every either): dqueue (1-4 consumers, BUFFER_SIZE 1-4): every produced item goes to the requester whose request was committed first, consumers obtain exactly the items sent to them in production order, no buffer above its bound, no deadlock; loadbalancer (1-3 servers, 1-3 clients, BUFFER_SIZE 1-3): BuffersOk, every request forwarded once to a server and answered by exactly one server with the page of its path; proxy (1-3 backends, 1-2 clients, perfect failure detector, EXPLORE_FAIL in 3/4 of the runs with every mayFail branch a stream decision and any number of crashes): ProxyOK as written after every committed step, and a client is told FAIL only when every backend has failed. Level U (real generated archetypes on the real runtime with the real resources over the simulated network): shcounter (2-4 nodes, real 2PC): every node finishes and every replica ends at NUM_NODES; gcounter (2-4 nodes, real CRDT resource): reads never decrease, never exceed NUM_NODES, every node ends at NUM_NODES; shopcart (generated ANode, 2-3 nodes, real CRDT resource with the LWWSet the shipped bootstrap uses or, in a third of the runs, the AWORSet of the specification with one commanding node per element, 1-4 add/remove commands each over 3 elements): no phantom element, a command that ran alone is reflected in its answer, once every update has been delivered all nodes answer the same cart, and an element whose last command started after all others were answered is present iff that command was an add; nestedcrdtimpl (generated ACRDTResource x 1-3 with the G-counter operators of the module's test, driven by the spec's Node processes transcribed label by label: read/write/pre-commit/commit/abort protocol, NUM_OPS 1-6, BUFFER_SIZE 1-3): MonotonicState, own entry = committed increments, no phantom increments, a read never returns less than the replica counted when the critical section started, convergence to the number of committed increments at quiescence. No assertion of a spec fails anywhere; non-trivial = at least 10 spec steps (A) or 2 committed sections (U); distinct = distinct interleaving digests",
 		Real: append(append([]string{}, realA...), "level U sub-scenarios: distsys/resources 2PC and CRDT resources, net/rpc, gob — real over the simulated network"),
 		Stub: append(append([]string{}, stubA...), stubU...),
 		Assumptions: []string{"dqueue/loadbalancer: CyclicReads/instream/WebPages yield unique items/paths/pages so deliveries are attributable (the spec's constants collapse them)", "proxy: PerfectFD (the property's hypothesis), not the PracticalFD the shipped spec instantiates", "replicatedkv has no spec or test in the tree and is not exercised"},
